@@ -8,7 +8,10 @@ Go ↔ model:
 * the informer map behind the `informerMap` interface       ↦ `infs : Kind → Option Bool`
   (`some h` = an informer exists; `h` = the controller event handlers were attached to it).
   `informerMap.Get` creates lazily (as `InformerMap.Get` does), `Delete` removes.
-* each exported method holds `informerReferencesMux` for its whole body, so one call = one step.
+  The real `InformerMap` is modelled in `Pko.Model.InformerMap`; `Pko.Props.C12.composed_refines_cache`
+  proves that this abstraction of it is exact on every reachable state.
+* each exported method holds `informerReferencesMux` for its whole body, so one call = one step
+  (structural fact `Pko.Gen.CacheLocks`, regenerated from cache.go; `Pko.Props.C12.locks_cover_bodies`).
 -/
 namespace Pko.Model.Cache
 
